@@ -62,6 +62,11 @@ def install():
         for name, val in list(vars(m).items()):
             if isinstance(val, singleton.SingletonDecorator) and id(val) not in _PRISTINE:
                 _PRISTINE[id(val)] = (val, {k: v for k, v in vars(val).items() if k != "instance"})
+    # plain module-level containers (caches, registries a change may add) are emptied back to what they held now
+    for m in MODULES:
+        for name, val in list(vars(m).items()):
+            if type(val) in (dict, list, set) and not name.startswith("__"):
+                _CONTAINERS[(m.__name__, name)] = (val, type(val)(val))
     _installed = True
 
 
@@ -86,6 +91,16 @@ def fix_singleton_locks():
 
 
 _PRISTINE = {}
+_CONTAINERS = {}
+
+
+def reset_containers():
+    for val, was in _CONTAINERS.values():
+        if isinstance(val, list):
+            val[:] = was
+        else:
+            val.clear()
+            val.update(was)
 
 
 def reset():
@@ -96,6 +111,7 @@ def reset():
                 delattr(dec, k)
         for k, v in attrs.items():
             setattr(dec, k, v)
+    reset_containers()
     for n in SINGLETONS:
         getattr(ao, n).instance = None
     fix_singleton_locks()
